@@ -23,7 +23,34 @@ let c01_table : (string * (Z.t list -> Z.t list option)) list = Model.[ "prog", 
 
 let c16_table : (string * (Z.t list -> Z.t list option)) list = Model.[ "dedup", run_dedup ]
 
-let tables = [ "c14", c14_table; "c01", c01_table; "c16", c16_table; "plonk", c01_table ]
+let c12_table : (string * (Z.t list -> Z.t list option)) list = Model.[
+  "cap", run_cap; "prove", run_prove; "proveall", run_proveall; "verify", run_verify;
+  "compress", run_compress; "decompress", run_decompress; "bcap", run_bcap; "bopen", run_bopen;
+  "bopenall", run_bopenall; "bverify", run_bverify; "hashleaf", run_hashleaf; "twoto1", run_twoto1 ]
+
+let c13_table : (string * (Z.t list -> Z.t list option)) list = Model.[
+  "poseidon", run_poseidon; "poseidon_naive", run_poseidon_naive; "poseidon_raw", run_poseidon_raw;
+  "poseidon_spec", run_poseidon_spec; "poseidon_fast", run_poseidon_fast; "mds_layer", run_mds_layer;
+  "partial_rounds", run_partial_rounds; "hash_no_pad", run_hash_no_pad; "hash_n_to_m", run_hash_n_to_m;
+  "two_to_one", run_two_to_one; "hash_or_noop", run_hash_or_noop; "hash_pad", run_hash_pad;
+  "challenger", run_challenger; "rchallenger", run_rchallenger; "challenger_x", run_challenger_x ]
+
+let c15_table : (string * (Z.t list -> Z.t list option)) list = Model.[
+  "revbits", run_revbits; "revidx", run_revidx; "revidx_inplace", run_revidx_inplace;
+  "transpose", run_transpose; "roottable", run_roottable;
+  "fft", run_fft; "fft_r", run_fft_r; "fftx", run_fftx;
+  "ifft", run_ifft; "ifft_r", run_ifft_r; "ifftx", run_ifftx;
+  "coset_fft", run_coset_fft; "coset_fft_r", run_coset_fft_r; "coset_ifft", run_coset_ifft;
+  "lde", run_lde; "lde_coset", run_lde_coset; "clde", run_clde;
+  "prou", run_prou; "subgroup", run_two_adic_subgroup;
+  "eval", run_eval; "evalpow", run_evalpow;
+  "polyadd", run_polyadd; "polysub", run_polysub; "polymul", run_polymul; "scalarmul", run_scalarmul;
+  "trim", run_trim; "trimlen", run_trimlen; "padded", run_padded; "degp1", run_degp1; "lead", run_lead;
+  "divlin", run_divlin; "divrem", run_divrem; "divremlong", run_divremlong; "invmodxn", run_invmodxn;
+  "interp", run_interp; "baryw", run_baryw; "interpolate", run_interpolate; "interp2", run_interp2;
+  "zpoc", run_zpoc; "zpoc_l0", run_zpoc_l0; "cosetshifts", run_cosetshifts ]
+
+let tables = [ "c15", c15_table; "c13", c13_table; "c12", c12_table; "c14", c14_table; "c01", c01_table; "c16", c16_table; "plonk", c01_table ]
 
 let split_ws s = List.filter (fun x -> x <> "") (String.split_on_char ' ' s)
 
